@@ -206,7 +206,7 @@ func (b *Binding) truncOffset(v, k string) int {
 // (nil,false) for absent/dir/noparent.
 func (w *World) contentFor(abs string, pkg string) ([]byte, bool) {
 	switch {
-	case abs == "absent" || abs == "dir" || abs == "noparent":
+	case abs == "absent" || abs == "dir" || abs == "noparent" || abs == "selflink":
 		return nil, false
 	case strings.HasPrefix(abs, "gen:"):
 		ref, ok := w.b.Ref[abs[4:]]
@@ -280,6 +280,12 @@ func (w *World) putOut(path string, abs string, pkg string) {
 		return
 	case "noparent":
 		_ = os.RemoveAll(filepath.Dir(path))
+		return
+	case "selflink":
+		_ = os.MkdirAll(filepath.Dir(path), 0o755)
+		if err := os.Symlink(w.setupPath(), path); err != nil {
+			core.Machinery("materialise link: %v", err)
+		}
 		return
 	}
 	c, _ := w.contentFor(abs, pkg)
@@ -391,6 +397,18 @@ func (w *World) checkOut(path, abs, pkg, what string) string {
 	case "noparent":
 		if _, e := os.Stat(filepath.Dir(path)); e == nil {
 			return fmt.Sprintf("%s: parent directory was created", what)
+		}
+		return ""
+	case "selflink":
+		if err != nil || info.Mode()&os.ModeSymlink == 0 {
+			return fmt.Sprintf("%s: expected the symbolic link to the setup file to stay, found %s", what, describe(path, info))
+		}
+		if want := w.input(w.cur).Setup; want == "" {
+			if _, e := os.Stat(w.setupPath()); e == nil {
+				return fmt.Sprintf("%s: a file appeared behind the dangling link", what)
+			}
+		} else if b, e := os.ReadFile(w.setupPath()); e != nil || string(b) != want {
+			return fmt.Sprintf("%s: the setup file behind the link was overwritten", what)
 		}
 		return ""
 	case "dir":
